@@ -4,6 +4,7 @@ import (
 	"bytes"
 	"fmt"
 	"strings"
+	"unsafe"
 
 	"github.com/cloudwego/dynamicgo/internal/simrt"
 	"github.com/cloudwego/dynamicgo/thrift"
@@ -207,6 +208,33 @@ func kidsDesc(kids []*generic.PathNode) string {
 	return s
 }
 
+// nodeMirror has the layout of generic.Node (t, et, kt, v, l).
+type nodeMirror struct {
+	t, et, kt thrift.Type
+	v         unsafe.Pointer
+	l         int
+}
+
+// danglingChild looks through all child slots of the tree (the whole capacity: the collector scans it all) for a node
+// whose data pointer is the address right behind buf.
+func danglingChild(pn *generic.PathNode, buf []byte, path string, depth int) string {
+	if len(buf) == 0 || depth > 8 {
+		return ""
+	}
+	end := uintptr(unsafe.Pointer(&buf[0])) + uintptr(len(buf))
+	next := pn.Next[:cap(pn.Next)]
+	for i := range next {
+		m := (*nodeMirror)(unsafe.Pointer(&next[i].Node))
+		if m.v != nil && uintptr(m.v) == end {
+			return fmt.Sprintf("%s.Next[%d]", path, i)
+		}
+		if r := danglingChild(&next[i], buf, fmt.Sprintf("%s.Next[%d]", path, i), depth+1); r != "" {
+			return r
+		}
+	}
+	return ""
+}
+
 func runC05(w *W) {
 	t := w.T
 	resetKnobs()
@@ -319,6 +347,11 @@ func runC05(w *W) {
 				w.opFacts = nil
 				if err != nil {
 					w.Count("failed_load_before_reuse")
+					// the tree the caller keeps must not hold a pointer to the byte behind the input: the garbage
+					// collector takes it for a pointer into the neighbouring object ("found pointer to free object")
+					if where := danglingChild(tree, bin.B, "$", 0); where != "" {
+						w.Failf("dangling-pointer", c.facts, "after the failed Load the child slot %s points one past the end of the %d-byte input", where, cut)
+					}
 				}
 				switch how {
 				case "reuse+ResetValue":
